@@ -326,7 +326,10 @@ func (w *world) compare(si int, s *stepT) (*mismatch, *errLate) {
 	}
 	waited := time.Since(t0)
 	// ---- C
-	m := w.compareRest(s, at)
+	m, lr := w.compareRest(s, at)
+	if lr != nil {
+		return nil, lr
+	}
 	if m != nil && m.firm {
 		return m, nil
 	}
@@ -344,7 +347,7 @@ func (w *world) compare(si int, s *stepT) (*mismatch, *errLate) {
 	return m, nil
 }
 
-func (w *world) compareRest(s *stepT, at func(int) string) *mismatch {
+func (w *world) compareRest(s *stepT, at func(int) string) (*mismatch, *errLate) {
 	for x, o := range s.Obs {
 		c := w.ctxs[x]
 		e := c.Err()
@@ -354,25 +357,25 @@ func (w *world) compareRest(s *stepT, at func(int) string) *mismatch {
 				m.what += fmt.Sprintf(" (it was %s after the previous step: Err changed after Done was closed)", errName(w.lastErr[x]))
 				m.dev = "X02/overwrite-err"
 			}
-			return m
+			return m, nil
 		}
 		w.lastErr[x] = e
 		dl, ok := c.Deadline()
 		if dl2, ok2 := c.Deadline(); ok != ok2 || !dl.Equal(dl2) {
-			return &mismatch{what: at(x) + ": successive calls of Deadline return different results", firm: true}
+			return &mismatch{what: at(x) + ": successive calls of Deadline return different results", firm: true}, nil
 		}
 		switch {
 		case o.Dl < 0 && ok:
-			return &mismatch{what: fmt.Sprintf("%s: Deadline() = %v, the specification says none", at(x), dl.Sub(w.t0)), firm: true}
+			return &mismatch{what: fmt.Sprintf("%s: Deadline() = %v, the specification says none", at(x), dl.Sub(w.t0)), firm: true}, nil
 		case o.Dl >= 0 && !ok:
-			return &mismatch{what: fmt.Sprintf("%s: no deadline, the specification says instant %d", at(x), o.Dl), firm: true}
+			return &mismatch{what: fmt.Sprintf("%s: no deadline, the specification says instant %d", at(x), o.Dl), firm: true}, nil
 		case o.Dl >= 0 && !w.acceptable(x, o.Dl, dl):
 			m := &mismatch{what: fmt.Sprintf("%s: Deadline() = start%+v, the specification says instant %d = start%+v (the minimum over the path to Background)",
 				at(x), dl.Sub(w.t0), o.Dl, w.instant(o.Dl).Sub(w.t0)), firm: true} // the WithTimeout bracket was checked at construction
 			if dl.After(w.instant(o.Dl)) && w.req[x] > o.Dl {
 				m.dev = "X02/own-deadline"
 			}
-			return m
+			return m, nil
 		}
 		for _, k := range w.tc.Keys {
 			want, has := o.Vals[k]
@@ -382,28 +385,37 @@ func (w *world) compareRest(s *stepT, at func(int) string) *mismatch {
 			got := c.Value(ctxKey(k))
 			if want == "none" {
 				if got != nil {
-					return &mismatch{what: fmt.Sprintf("%s: Value(%s) = %v, the specification says nil", at(x), k, got), firm: true}
+					return &mismatch{what: fmt.Sprintf("%s: Value(%s) = %v, the specification says nil", at(x), k, got), firm: true}, nil
 				}
 			} else if gs, isS := got.(string); !isS || gs != want {
-				return &mismatch{what: fmt.Sprintf("%s: Value(%s) = %v, the specification says %s (the nearest binding on the path to Background)", at(x), k, got, want), firm: true}
+				return &mismatch{what: fmt.Sprintf("%s: Value(%s) = %v, the specification says %s (the nearest binding on the path to Background)", at(x), k, got, want), firm: true}, nil
 			}
 			if got := c.Value(k); got != nil { // same text, other type: not the key
-				return &mismatch{what: fmt.Sprintf("%s: Value(string %q) = %v although only ctxKey(%q) was bound", at(x), k, got, k), firm: true}
+				return &mismatch{what: fmt.Sprintf("%s: Value(string %q) = %v although only ctxKey(%q) was bound", at(x), k, got, k), firm: true}, nil
 			}
 		}
 		if n, ok := kidsOf(c); ok && n != o.Kids {
 			// a timer goroutine closes Done first and leaves the parent's registry afterwards (CtxTreePre17: Rm follows
-			// IterDone): the registry is judged once it has settled, like Done within a bound
-			for t0 := time.Now(); n != o.Kids && time.Since(t0) < settleBound; n, _ = kidsOf(c) {
+			// IterDone): the registry is judged once it has settled - but before the next deadline changes it again
+			limit, cut := settleBound, false
+			if w.now < w.finalNow {
+				if u := time.Until(w.instant(w.now+1)) - 2*time.Millisecond; u < limit {
+					limit, cut = u, true
+				}
+			}
+			for t0 := time.Now(); n != o.Kids && time.Since(t0) < limit; n, _ = kidsOf(c) {
 				time.Sleep(time.Millisecond)
 			}
 			if n != o.Kids {
-				return &mismatch{what: fmt.Sprintf("%s: %d children registered with the context (cancelCtx.children) %v after the step, the specification says %d",
-					at(x), n, settleBound, o.Kids), dev: "X02/registry-leak", firm: n > o.Kids}
+				what := fmt.Sprintf("%s: %d children registered with the context (cancelCtx.children), the specification says %d", at(x), n, o.Kids)
+				if cut {
+					return nil, &errLate{waited: true, msg: what + fmt.Sprintf(" (not settled %v after the step, when the next deadline was due)", limit.Round(time.Millisecond))}
+				}
+				return &mismatch{what: what + fmt.Sprintf(" (%v after the step)", settleBound), dev: "X02/registry-leak", firm: true}, nil
 			}
 		}
 	}
-	return nil
+	return nil, nil
 }
 
 func describe(s *stepT) string {
@@ -535,21 +547,40 @@ func runSeq(i int, raw json.RawMessage) rp.Result {
 	return withRetries(tc, i, func(w *world) (*mismatch, *errLate) { return w.prefix(len(tc.Steps)) })
 }
 
-// guarded turns a panic that escapes the library into a verdict and a harness bug into exit 3 (as rp does for
-// registry replayers; batch replayers have to do it themselves).
-func guarded(i int, f func() rp.Result) (r rp.Result) {
-	defer func() {
-		if e := recover(); e != nil {
-			if _, bug := e.(rp.HarnessBug); bug {
-				fmt.Fprintf(os.Stderr, "replay: harness bug on case %d: %v\n%s\n", i, e, debug.Stack())
-				os.Exit(3)
+// caseTimeout bounds one case: a call into the package that never returns is a verdict ("stall"), as in rp.safe.
+var caseTimeout atomic.Int64
+
+func init() { caseTimeout.Store(int64(150 * time.Second)) }
+
+// guarded runs one case under a watchdog, turns a panic that escapes the library into a verdict and a harness bug into
+// exit 3 (as rp does for registry replayers; batch replayers have to do it themselves).
+func guarded(i int, f func() rp.Result) rp.Result {
+	done := make(chan rp.Result, 1)
+	go func() {
+		var r rp.Result
+		defer func() {
+			if e := recover(); e != nil {
+				if _, bug := e.(rp.HarnessBug); bug {
+					fmt.Fprintf(os.Stderr, "replay: harness bug on case %d: %v\n%s\n", i, e, debug.Stack())
+					os.Exit(3)
+				}
+				r = rp.Result{OK: false, What: fmt.Sprintf("panic: %v", e), Observed: string(debug.Stack()), Nontriv: true,
+					Info: map[string]interface{}{"class": "panic"}}
 			}
-			r = rp.Result{OK: false, What: fmt.Sprintf("panic: %v", e), Observed: string(debug.Stack()), Nontriv: true,
-				Info: map[string]interface{}{"class": "panic"}}
-		}
-		r.I = i
+			r.I = i
+			done <- r
+		}()
+		r = f()
 	}()
-	return f()
+	to := time.Duration(caseTimeout.Load())
+	select {
+	case r := <-done:
+		return r
+	case <-time.After(to):
+		caseTimeout.Store(int64(10 * time.Second)) // the verdict is a stall already
+		return rp.Result{I: i, OK: false, Nontriv: true, Info: map[string]interface{}{"class": "stall"},
+			What: fmt.Sprintf("stall: the case did not finish within %v (a call into the package never returned)", to)}
+	}
 }
 
 // variant tells which implementation is compiled in.
